@@ -49,8 +49,9 @@ pub fn resolve_instruction(
 
 
     // Check for stable resolution
-    let is_stable =
-        Some(&instr.encoding) == maybe_chosen_encoding.as_ref();
+    let is_stable = maybe_chosen_encoding
+        .as_ref()
+        .map_or(false, |e| instr.encoding.is_identical(e));
 
 
     // Update the instruction's encoding if available
